@@ -139,9 +139,15 @@ fn takeif_case(em: &mut Emitter, cls: u8, n: u32, d: &[u8]) {
             let e = mk_tag(cls, n);
             let mut src = SliceSource::new(d);
             let r = e.take_from_if(&mut src);
-            (r.ok(), d.len() - src.len())
+            // the same conditional read on a source that shows only what was requested
+            let mut lazy = crate::sources::FlexSource::new(d, crate::sources::Policy::Exact, None);
+            let rl = e.take_from_if(&mut lazy).ok();
+            let r = r.ok();
+            if rl != r || lazy.left() != src.len() { return (r, usize::MAX) }
+            (r, d.len() - src.len())
         });
         match r {
+            Some((r, used)) if used == usize::MAX => { let _ = r; (Ints::new().n(-2), Oracle::Fail("conditional-read-depends-on-how-the-source-delivers".into()), true) }
             Some((r, used)) => {
                 let exp = ref_parse(d);
                 let mut oracle = Oracle::Pass;
